@@ -40,4 +40,13 @@ CHECKS = {
             dict(name="TestC16Aggregate", quick=dict(checks=50000, timeout=300), thorough=dict(checks=400000, shards=4, timeout=1500)),
             dict(name="FuzzC16", quick=dict(skip=True), thorough=dict(fuzz="240s", timeout=600, procs=16)),
         ]),
+    "C03": dict(
+        pkg="c03", level="exploration",
+        technique="property-based testing (rapid) against an independent grep reference model, plus small-scope exhaustive enumeration of the context state machine",
+        level_text="The server's file reader (the code dgrep runs per file) is driven in-process with generated files, RE2 patterns, invert and before/after/max values and compared line by line with a reference model written from the property text; every selected/unselected vector up to a small length is enumerated completely with all context combinations.",
+        level_note="'grep semantics' = the pattern is matched against the line without its terminator; '' with --invert is outside the domain. The end-to-end path (flags, serialisation, server decoding) is covered by C12.",
+        tests=[
+            dict(name="TestC03Exhaustive", quick=dict(timeout=600), thorough=dict(timeout=3000)),
+            dict(name="TestC03Random", quick=dict(checks=20000, timeout=600), thorough=dict(checks=150000, shards=15, timeout=3000)),
+        ]),
 }
